@@ -74,6 +74,7 @@ struct Target {
     restype: Option<String>,                      // the outcome type of the function (default `res`)
     recfuel: Option<String>,
     places: Vec<(String, String, String, String)>, // expression text that denotes a mutable place inside a variable: (text, variable, getter term, setter term with $v)
+    stmtcount: usize,                             // with onlystmt: that statement and the following ones of its block, this many in all (default 1)
     onlystmt: Option<String>,                     // translate only the statement (anywhere in the body) whose text starts with this
     diverge: HashMap<String, String>,             // "path/arity" of a call that never returns (process::exit): the outcome it stands for
     placemethod: HashMap<String, String>,         // "name/arity" of a mutating method called on a place -> the place's new value ($0 current value)
@@ -146,6 +147,18 @@ fn struct_field_types(file: &syn::File) -> HashMap<String, String> {
         out.remove(&c);
     }
     out
+}
+
+// the variable a `let x = ..` / `let x: T = ..` / `let mut x = ..` introduces
+fn let_name(p: &Pat) -> Option<String> {
+    match p {
+        Pat::Ident(i) => Some(i.ident.to_string()),
+        Pat::Type(t) => match &*t.pat {
+            Pat::Ident(i) => Some(i.ident.to_string()),
+            _ => None,
+        },
+        _ => None,
+    }
 }
 
 // a Rust type as part of a Coq identifier (u16, usize, KmsProtection, String ...)
@@ -1437,8 +1450,8 @@ impl<'a> Tr<'a> {
                 let restc = self.seq(rest, k)?;
                 Ok(format!("obind ({}) (fun '({}, {}) =>\n{})", term, c, Self::tuple_of(&names), restc))
             }
-            Stmt::Local(l) if matches!(&l.pat, Pat::Ident(i) if self.t.letmap.contains_key(&i.ident.to_string())) => {
-                let name = match &l.pat { Pat::Ident(i) => i.ident.to_string(), _ => unreachable!() };
+            Stmt::Local(l) if let_name(&l.pat).map(|n| self.t.letmap.contains_key(&n)).unwrap_or(false) => {
+                let name = let_name(&l.pat).unwrap();
                 let (term, is_res) = self.t.letmap.get(&name).cloned().unwrap();
                 let term = self.subst_vars(&term);
                 let kind = self.t.kinds.get(&name).cloned().unwrap_or(Kind::Other);
@@ -1604,10 +1617,7 @@ impl<'a> Tr<'a> {
             {
                 // let x = if c { ..; v } else { ..; w };   — the branches are blocks used as values
                 let init = l.init.as_ref().unwrap();
-                let name = match &l.pat {
-                    Pat::Ident(i) => i.ident.to_string(),
-                    _ => return Err(format!("let pattern {}", toks(&l.pat))),
-                };
+                let name = let_name(&l.pat).ok_or(format!("let pattern {}", toks(&l.pat)))?;
                 let vars: Vec<String> = self.scan(&init.expr).assigned.into_iter().filter(|v| self.lookup(v).is_some()).collect();
                 let kv = if vars.is_empty() { K::Val } else { K::ValJoin(vars.clone()) };
                 let saved = self.env.clone();
@@ -2958,6 +2968,7 @@ fn parse_targets(text: &str) -> (String, Vec<Target>) {
                 t.placemethod.insert(norm(&a), b);
             }
             "onlystmt" => t.onlystmt = Some(norm(rest)),
+            "stmtcount" => t.stmtcount = rest.trim().parse().expect("stmtcount needs a number"),
             "diverge" => {
                 let (a, b) = arrow(rest);
                 t.diverge.insert(norm(&a), b);
@@ -3244,19 +3255,25 @@ fn translate_target(repo: &str, t0: &Target) -> Result<String, String> {
     // onlystmt: the one statement of the body (at any depth) whose text starts with the given prefix
     let picked: Option<Vec<Stmt>> = match &t.onlystmt {
         Some(prefix) => {
-            struct Find<'p> { prefix: &'p str, found: Option<Stmt> }
+            struct Find<'p> { prefix: &'p str, count: usize, found: Option<Vec<Stmt>> }
             impl<'ast, 'p> syn::visit::Visit<'ast> for Find<'p> {
-                fn visit_stmt(&mut self, st: &'ast Stmt) {
-                    if self.found.is_none() && toks(st).starts_with(self.prefix) {
-                        self.found = Some(st.clone());
+                fn visit_block(&mut self, b: &'ast Block) {
+                    if self.found.is_some() {
                         return;
                     }
-                    syn::visit::visit_stmt(self, st);
+                    for (i, st) in b.stmts.iter().enumerate() {
+                        if toks(st).starts_with(self.prefix) {
+                            let end = (i + self.count.max(1)).min(b.stmts.len());
+                            self.found = Some(b.stmts[i..end].to_vec());
+                            return;
+                        }
+                    }
+                    syn::visit::visit_block(self, b);
                 }
             }
-            let mut f = Find { prefix: prefix.as_str(), found: None };
+            let mut f = Find { prefix: prefix.as_str(), count: t.stmtcount, found: None };
             syn::visit::Visit::visit_block(&mut f, block);
-            Some(vec![f.found.ok_or(format!("{} :: {}: no statement starts with `{}`", t.file, t.func, prefix))?])
+            Some(f.found.ok_or(format!("{} :: {}: no statement starts with `{}`", t.file, t.func, prefix))?)
         }
         None => None,
     };
